@@ -13,7 +13,7 @@ SceneOf(lst) == [s \in ShapeIds |-> IF \E i \in DOMAIN lst : lst[i][1] = s
                                     THEN LET q == lst[CHOOSE i \in DOMAIN lst : lst[i][1] = s] IN <<q[2], q[3], q[4], q[5]>>
                                     ELSE NoRect]
 \* if the code reported a scene after this call, it must be the specification's
-Reported == ~Line.rep \/ (queue' = <<>> /\ scene' = SceneOf(Line.scene))
+Reported == IF ~Line.rep THEN TRUE ELSE (queue' = <<>> /\ scene' = SceneOf(Line.scene))
 TInit == /\ l = 1 /\ scene = [s \in ShapeIds |-> NoRect] /\ own = [s \in ShapeIds |-> NoRect] /\ want = [s \in ShapeIds |-> NoRect]
          /\ ends = [c \in ConnIds |-> IF c = 1 THEN <<<<1, 7>>, <<13, 7>>>> ELSE <<<<7, 1>>, <<7, 13>>>>] /\ wantEnds = ends
          /\ queue = <<>> /\ txn = TRUE /\ steps = 0 /\ am = [s \in ShapeIds |-> 0]
